@@ -660,6 +660,9 @@ def check_set_input(res, facts):
 # ---------------------------------------------------------------------------------------
 # accumulator class invariant and phase control (C10/C11)
 
+PA_FIELDS = {'sample_rate_hz', 'rollover_mask', 'accumulator', 'last_accumulator', 'increment', 'rolled_over'}
+
+
 def check_pa_methods(res, facts, owner, prop):
     dds = Dds(facts)
     total, index = pa_instantiation(facts, owner)
@@ -699,11 +702,12 @@ def check_pa_methods(res, facts, owner, prop):
         if got is not None:
             lo, hi = o.ctx.rng(got)
             res.ob('R-PHASE', inst0 + ' tick() keeps acc <= mask', lo >= 0 and hi <= mask, 'accumulator after tick = %r in [%s,%s]' % (got, lo, hi), where_of(facts, PAF + 'tick'), key='R-PHASE:tick-inv:' + inst0)
-        if prop == 'C11':
+        if prop in ('C11', 'C12'):
+            # (C12 bounds the change per tick by the phase step: the step must be exactly the increment, also across the wrap)
             wrapped = o.ctx.decide(cmp_term('Gt', acc0 + inc0, mask)) if got is not None else None
             ok = got is not None and (got == exp or (wrapped is False and got == acc0 + inc0))
             res.ob('R-PHASE', inst0 + ' tick() adds the increment modulo 2^T', ok, 'accumulator after tick = %r; expected (acc + increment) mod 2^%d' % (got, total), where_of(facts, PAF + 'tick'), key='R-PHASE:tick:' + inst0)
-            ch = set(changed_fields(pre, post))
+            ch = set(spec_fields_changed(pre, post, PA_FIELDS))
             res.ob('R-WRITESET', inst0 + ' tick() writes', ch <= {'accumulator', 'last_accumulator', 'rolled_over'}, 'changed %s' % sorted(ch), where_of(facts, PAF + 'tick'), key='R-WRITESET:tick:' + inst0)
     if prop not in ('C11', 'C10'):
         return n
@@ -716,7 +720,7 @@ def check_pa_methods(res, facts, owner, prop):
     for o in sem_iter(outs):
         n += 1
         post = o.cells[cell]
-        ch = set(changed_fields(pre, post))
+        ch = set(spec_fields_changed(pre, post, PA_FIELDS))
         ok = o.status == 'returned' and post.get('accumulator').term == ZERO and ch <= {'accumulator', 'last_accumulator', 'rolled_over'}
         res.ob('R-PHASE', inst0 + ' reset()', ok, 'accumulator after reset = %r, changed %s' % (post.get('accumulator'), sorted(ch)), where_of(facts, PAF + 'reset'), key='R-PHASE:reset:' + inst0)
     # set_phase(p): acc' = trunc(mask * (|p| mod 1))
@@ -736,7 +740,7 @@ def check_pa_methods(res, facts, owner, prop):
             post = o.cells[cell]
             got = post.get('accumulator').term if o.status == 'returned' else None
             exp = t_f2i(Poly.const(mask) * t_frem(absp, ONE, o.ctx), 0, 2 ** 32 - 1, o.ctx)
-            ch = set(changed_fields(pre, post))
+            ch = set(spec_fields_changed(pre, post, PA_FIELDS))
             if prop == 'C11' and part == 'p>=0':
                 res.ob('R-PHASE', inst0 + ' set_phase|' + part, got == exp and ch <= {'accumulator', 'last_accumulator', 'rolled_over'},
                        'accumulator after set_phase = %r; expected trunc(mask * (p mod 1)); changed %s' % (got, sorted(ch)), where_of(facts, PAF + 'set_phase'), key='R-PHASE:set_phase:%s:%s' % (inst0, part))
@@ -763,7 +767,7 @@ def check_pa_methods(res, facts, owner, prop):
     for o in sem_iter(outs):
         n += 1
         post = o.cells[cell]
-        ch = set(changed_fields(pre, post))
+        ch = set(spec_fields_changed(pre, post, PA_FIELDS))
         got = post.get('increment').term if o.status == 'returned' else None
         exp = t_f2i(Poly.const(1 << total) * f.term * inv_poly(fsym), 0, 2 ** 32 - 1, o.ctx)
         res.ob('R-INC', inst0 + ' set_frequency', got == exp and ch <= {'increment'}, 'increment = %r; expected trunc(2^%d * f / fs); changed %s' % (got, total, sorted(ch)), where_of(facts, PAF + 'set_frequency'), key='R-INC:set_frequency:' + inst0)
